@@ -29,6 +29,7 @@ func init() {
 	sim.RegisterKind("evenport", "C19")
 	sim.RegisterKind("family-default", "C19")
 	sim.RegisterKind("relay-unreachable", "C19")
+	sim.RegisterKind("lifetime-not-in-force", "C19", "C06")
 }
 
 type c19 struct {
@@ -211,6 +212,34 @@ func (x *c19) allocateAndProbe(c *sim.RawClient, peer *sim.Peer, opts sim.AllocO
 	st.PeerSend(peer, relay, []byte(fmt.Sprintf("reach-%s-%d", c.Name, x.rng.Int63())))
 	st.End()
 	x.rec.FP("reachability/%s/fam%d", transportName(c.IsTCP), famOfIP(relay.IP))
+	// the reported LIFETIME is the one in force: a short allocation is there 2 s before and gone 2 s after it
+	if lt, ok := resp.Lifetime(); ok && lt >= 5 && lt <= 120 && x.rng.Intn(2) == 0 {
+		mine := func() bool {
+			for _, mgr := range x.w.Srv.VerifManagers() {
+				snap, _, _ := mgr.VerifSnapshot()
+				for _, s := range snap {
+					if s.Src == c.Addr.String() {
+						return true
+					}
+				}
+			}
+
+			return false
+		}
+		x.w.Sleep(time.Duration(lt)*time.Second - 2*time.Second)
+		x.m.Audit(nil)
+		if !mine() {
+			x.rec.Violate("lifetime-not-in-force", "early", "%s: allocation with reported LIFETIME %d s was gone 2 s before that", c.Name, lt)
+		}
+		x.w.Sleep(4 * time.Second)
+		x.m.Audit(nil)
+		if mine() {
+			x.rec.Violate("lifetime-not-in-force", "late", "%s: allocation with reported LIFETIME %d s still exists 2 s after that", c.Name, lt)
+		}
+		x.rec.FP("lifetime-in-force/%d", lt)
+
+		return true
+	}
 	// idempotent retransmission, possibly after some time
 	wait := pick(x.rng, []time.Duration{0, 0, 500 * time.Millisecond, 3 * time.Second, 31 * time.Second})
 	if a, _ := x.m.Alloc(c); a == nil || time.Until(a.Exp) < wait+2*time.Second {
@@ -429,7 +458,7 @@ func runC19(t *testing.T, rng *rand.Rand, rec *sim.Rec, tier string, caseNo int)
 		case 2, 3:
 			o := sim.AllocOpts{Lifetime: nil}
 			if rng.Intn(2) == 0 {
-				o.Lifetime = sim.U32(uint32(pick(rng, []int{1, 59, 600, 3599, 3600, 4000})))
+				o.Lifetime = sim.U32(uint32(pick(rng, []int{1, 30, 59, 600, 3599, 3600, 4000})))
 			}
 			if rng.Intn(3) == 0 {
 				o.Family = byte(1 + rng.Intn(2))
